@@ -75,6 +75,10 @@ Definition k_trans (x y z : ovalue) : bool :=
   | OInt i, OInt j, OFloat f | OInt i, OFloat f, OInt j | OFloat f, OInt i, OInt j => collide i j f
   | _, _, _ => false
   end.
+(** the only argument ORDER in which a law fails: Int, Float, Int ([k_trans] is its closure
+    under reordering, which is what the check classifies: it tests all six orders) *)
+Definition k_mid (x y z : ovalue) : bool :=
+  match x, y, z with OInt i, OFloat f, OInt j => collide i j f | _, _, _ => false end.
 (** the wider, purely syntactic class: an Int and a Float occur in the triple *)
 Definition is_oint (o : ovalue) : bool := match o with OInt _ => true | _ => false end.
 Definition is_ofloat (o : ovalue) : bool := match o with OFloat _ => true | _ => false end.
